@@ -472,8 +472,9 @@ class World(object):
     def _withheld(self, m):
         if m.method != 'run_action' or not self.withhold:
             return False
-        txt = json.dumps(m.kwargs.get('action'), default=str)
-        return any(('"tag": "%s"' % t) in txt or ("'tag': '%s'" % t) in txt or ('\\"tag\\": \\"%s\\"' % t) in txt for t in self.withhold)
+        # (the action travels serialised, possibly several levels deep: compare without the escaping)
+        txt = json.dumps(m.kwargs.get('action'), default=str).replace('\\', '')
+        return any(('"tag": "%s"' % t) in txt or ("'tag': '%s'" % t) in txt for t in self.withhold)
 
     def withheld_action_ids(self):
         return [m.kwargs.get('action_ex_id') for m in self.msgs.values()
@@ -686,6 +687,20 @@ class World(object):
             c.rerun_workflow(st[2], reset=st[3], skip=(st[4] if len(st) > 4 else False))
         else:
             raise ValueError(op)
+
+    def insert_orphan_actions(self, n, project='proj-A'):
+        """n RUNNING synchronous action executions that belong to no task (what `run_action` with save_result leaves behind
+        when its executor dies), with a heartbeat long overdue: the heartbeat checker can never process them."""
+        from mistral.db.v2 import api as db_api
+        self.auth_context.set_ctx(mdb.ctx(project))
+        try:
+            with db_api.transaction():
+                for k in range(n):
+                    db_api.create_action_execution({
+                        'name': 'std.noop', 'state': 'RUNNING', 'is_sync': True, 'input': {}, 'runtime_context': {},
+                        'last_heartbeat': BASE - datetime.timedelta(seconds=1000 + k), 'description': 'orphan %d' % k})
+        finally:
+            self.auth_context.set_ctx(None)
 
     # -- definitions --------------------------------------------------------------------------------
     def define_workbook(self, yaml_text, project='proj-A', namespace=''):
